@@ -4,7 +4,7 @@ Runs in a scratch copy of /repo's working tree; a failing case is a real failing
 import os, re, shutil, subprocess, tempfile, time, json, sys
 VERIF = os.path.dirname(os.path.dirname(os.path.abspath(__file__)))
 REPO = os.environ.get('VP_REPO', '/repo')
-HARNESS = {'src/parsing/buffers.rs': 'native/buffers_checks.rs', 'src/parsing/chunked_reader.rs': 'native/chunked_checks.rs', 'src/parsing/body_reader.rs': 'native/body_checks.rs', 'src/request/proxy.rs': 'native/proxy_checks.rs', 'src/parsing/compressed_reader.rs': 'native/compressed_checks.rs'}
+HARNESS = {'src/parsing/buffers.rs': 'native/buffers_checks.rs', 'src/parsing/chunked_reader.rs': 'native/chunked_checks.rs', 'src/parsing/body_reader.rs': 'native/body_checks.rs', 'src/request/proxy.rs': 'native/proxy_checks.rs', 'src/parsing/compressed_reader.rs': 'native/compressed_checks.rs', 'src/request/mod.rs': 'native/request_checks.rs'}
 
 
 def run(prop, tier, cfg):
